@@ -42,7 +42,7 @@ pub fn run_property(ctx: &Ctx, rep: &mut Report) -> Result<(), String> {
         "C05" => props::c05::run(ctx, rep),
         "C06" => {
             props::c06::run_lib(ctx, rep);
-            props::maps::run_projects(ctx, rep, "C06", 96, 2400);
+            props::maps::run_projects(ctx, rep, "C06", 1600, 32000);
         }
         "C07" => props::c07::run(ctx, rep),
         "C08" => props::c08::run(ctx, rep),
@@ -59,7 +59,7 @@ pub fn run_property(ctx: &Ctx, rep: &mut Report) -> Result<(), String> {
         "C19" => props::c19::run(ctx, rep),
         "C20" => {
             props::c20::run(ctx, rep);
-            props::maps::run_projects(ctx, rep, "C20", 96, 2400);
+            props::maps::run_projects(ctx, rep, "C20", 1600, 32000);
         }
         p => return Err(format!("unknown property {p}")),
     }
